@@ -20,6 +20,7 @@ type Hist struct {
 	Pivot   int
 	Alt     bool
 	Variant int
+	late    *lateState // per-call state of the nested-late history (Variant 3)
 	// LenBetween calls Len() on the value under construction between builder steps (a size query
 	// on an incomplete value must not disturb the completed one).
 	LenBetween bool
@@ -49,6 +50,42 @@ func learnHeader(s *wire.N) (*of.NXLearnSpecHeader, error) {
 
 // BuildAction builds a library action through its constructor.
 func BuildAction(n *wire.N, h Hist) (of.Action, error) {
+	if h.Variant != 3 {
+		return buildAction(n, h)
+	}
+	top := h.late == nil
+	if top {
+		h.late = &lateState{}
+	}
+	h.late.depth++
+	a, err := buildAction(n, h)
+	h.late.depth--
+	if top {
+		h.late.drain()
+	}
+	return a, err
+}
+
+// Variant 3 is the "nested late" history: an action nested in a conntrack action is completed only
+// after it was nested (NAT ranges set, inner conntrack actions added, after the outer AddAction), the
+// way a caller does who builds top-down. lateState (one per top-level BuildAction call) holds the
+// completions not yet made.
+type lateState struct {
+	depth int
+	work  []func()
+}
+
+func (l *lateState) drain() {
+	for len(l.work) > 0 {
+		w := l.work
+		l.work = nil
+		for _, f := range w {
+			f()
+		}
+	}
+}
+
+func buildAction(n *wire.N, h Hist) (of.Action, error) {
 	switch n.K {
 	case "act_output":
 		a := of.NewActionOutput(uint32(u(n, "Port")))
@@ -194,6 +231,16 @@ func BuildAction(n *wire.N, h Hist) (of.Action, error) {
 			a.Flags = uint16(fl)
 		}
 		a.Table(uint8(u(n, "RecircTable")))
+		if h.Variant == 1 {
+			// a zone given one way and then the other way: the later call decides
+			if u(n, "ZoneSrc") == 0 {
+				if f, err := HeaderField(0x00010204); err == nil {
+					a.ZoneRange(f, of.NewNXRangeByOfsNBits(0, 16))
+				}
+			} else {
+				a.ZoneImm(0x1234)
+			}
+		}
 		if u(n, "ZoneSrc") == 0 {
 			a.ZoneImm(uint16(u(n, "ZoneOfsNbits")))
 		} else {
@@ -213,15 +260,26 @@ func BuildAction(n *wire.N, h Hist) (of.Action, error) {
 			}
 			kids = append(kids, ca)
 		}
-		if h.Alt {
-			a.AddAction(kids...) // one variadic call
-		} else {
-			for _, ca := range kids {
-				if h.LenBetween {
-					a.Len()
+		addKids := func() {
+			if h.Alt {
+				a.AddAction(kids...) // one variadic call
+			} else {
+				for _, ca := range kids {
+					if h.LenBetween {
+						a.Len()
+					}
+					a.AddAction(ca)
 				}
-				a.AddAction(ca)
 			}
+		}
+		if h.Variant == 3 && h.late != nil && h.late.depth > 1 {
+			// nested in another conntrack action: receives its own actions after it was nested
+			h.late.work = append(h.late.work, addKids)
+			return a, nil
+		}
+		addKids()
+		if h.Variant == 3 && h.late != nil {
+			h.late.drain() // the nested actions are completed now that they are nested
 		}
 		return a, nil
 	case "nx_nat":
@@ -289,6 +347,15 @@ func BuildAction(n *wire.N, h Hist) (of.Action, error) {
 		if k := len(present); k > 1 && h.Pivot > 0 { // rotate
 			r := h.Pivot % k
 			present = append(present[r:], present[:r]...)
+		}
+		if h.Variant == 3 && h.late != nil && h.late.depth > 1 {
+			ranges := present
+			h.late.work = append(h.late.work, func() {
+				for _, s := range ranges {
+					s.f()
+				}
+			})
+			return a, nil
 		}
 		for _, s := range present {
 			s.f()
